@@ -13,6 +13,12 @@ Edwards laws).  Message digests and Fiat–Shamir challenges are taken from the 
 recomputes them independently of the library where a standard hash is used); the handlers are
 structured as `… (e : Fp n)` so that recomputation from the message can replace the argument once
 the hash models are available.
+
+Adversarially constructed inputs (no honest signer) use, besides the `*.verify` ops,
+* `ecdsa.forge` — a freely chosen `(r, s, v)` under the key recovered from it (`Sig.ecdsaForge`; the
+  verification equation is the truth, cf. `Props.C15.ecdsa_recover_eq_not_sufficient`);
+* `bip340.wire`, `mina.wire` — the byte-level verifiers (range / canonicity checks, `lift_x`);
+* `bls.dst` — the ciphersuite identifiers of the BLS draft.
 -/
 namespace BronVerif.Drive.C15
 open BronVerif BronVerif.Drive BronVerif.Curves BronVerif.Sig
